@@ -256,9 +256,6 @@ func (P *Program) runPath(job *Job, fn *ssa.Function, item WorkItem, sol *smt.So
 			p.funcs[fi.name] = true
 		}
 		pr.Funcs = p.funcs
-		if it.replay != nil {
-			pr.Replay = it.replay
-		}
 		switch r := r.(type) {
 		case nil:
 			if p.pos < len(p.prefix) {
@@ -292,8 +289,14 @@ func (P *Program) runPath(job *Job, fn *ssa.Function, item WorkItem, sol *smt.So
 			pr.Status = StInternal
 			pr.Msg = fmt.Sprintf("engine panic: %v\n%s", r, debug.Stack())
 		}
-		if pr.Status == StViolation && it.known != nil {
-			// a violation reached while a known-finding guard was armed is attributed by the harness, not here
+		if pr.Status == StViolation && pr.Model != nil {
+			func() {
+				defer func() { recover() }()
+				it.snapshotForReplay(pr.Model)
+			}()
+			if it.replay != nil {
+				pr.Replay = it.replay
+			}
 		}
 	}()
 	// initialise the harness package (runs whitelisted inits transitively)
